@@ -814,12 +814,29 @@ t_null_args(void)
         IMB_SNOW3G_INIT_KEY_SCHED(m, KEY[0], &sk);
         IMB_KASUMI_INIT_F8_KEY_SCHED(m, KEY[0], &kk);
         uint64_t ivv = 5;
+        static uint8_t kbuf[512] __attribute__((aligned(64))), b4[8][64], o4[8][64], t4[8][16], i4[8][16];
+        static const void *P4K[8], *P4I[8], *P4S[8], *P4SK[8], *P8SK[8], *P8I[8], *P8S[8];
+        static void *P4D[8], *P4T[8], *P8D[8];
+        static uint32_t L4[8], L8[8];
+        static uint64_t L4Q[8], IV4[8];
+        for (int i = 0; i < 8; i++) {
+                P4K[i] = KEY[i];
+                P4I[i] = P8I[i] = i4[i];
+                P4S[i] = P8S[i] = b4[i];
+                P4D[i] = P8D[i] = o4[i];
+                P4T[i] = t4[i];
+                P4SK[i] = P8SK[i] = &sk;
+                L4[i] = L8[i] = 32;
+                L4Q[i] = 32;
+                IV4[i] = 7;
+        }
         struct {
                 const char *n;
                 void *fn;
                 int na;
-                uint64_t a[12];
+                uint64_t a[14];
                 uint16_t ptrmask; /* which arguments are pointers that may be NULLed */
+                uint16_t arrmask; /* which of them are arrays of 4 pointers: one element is NULLed as well */
         } T[] = {
                 { "gcm128-enc", (void *) m->gcm128_enc, 10, { A(&gk), A(&ctx), A(out), A(buf), 32, A(iv), A(buf), 8, A(tag), 16 }, 0x16F },
                 { "gcm128-dec", (void *) m->gcm128_dec, 10, { A(&gk), A(&ctx), A(out), A(buf), 32, A(iv), A(buf), 8, A(tag), 16 }, 0x16F },
@@ -854,12 +871,53 @@ t_null_args(void)
                 { "chacha20-poly1305-init", (void *) m->chacha20_poly1305_init, 5, { A(KEY[0]), A(out), A(iv), A(buf), 8 }, 0x0F },
                 { "hmac-ipad-opad", (void *) imb_hmac_ipad_opad, 6, { A(m), IMB_AUTH_HMAC_SHA_1, A(KEY[0]), 20, A(out), A(buf) }, 0x04 },
                 { "imb-set-session", (void *) imb_set_session, 2, { A(m), 0 }, 0x00 },
+                { "gcm192-enc", (void *) m->gcm192_enc, 10, { A(&gk), A(&ctx), A(out), A(buf), 32, A(iv), A(buf), 8, A(tag), 16 }, 0x16F },
+                { "gcm256-dec", (void *) m->gcm256_dec, 10, { A(&gk), A(&ctx), A(out), A(buf), 32, A(iv), A(buf), 8, A(tag), 16 }, 0x16F },
+                { "gcm128-init-var-iv", (void *) m->gcm128_init_var_iv, 6, { A(&gk), A(&ctx), A(iv), 16, A(buf), 8 }, 0x17 },
+                { "gcm128-dec-update", (void *) m->gcm128_dec_update, 5, { A(&gk), A(&ctx), A(out), A(buf), 32 }, 0x0F },
+                { "gcm128-dec-finalize", (void *) m->gcm128_dec_finalize, 4, { A(&gk), A(&ctx), A(tag), 16 }, 0x07 },
+                { "gmac128-init", (void *) m->gmac128_init, 4, { A(&gk), A(&ctx), A(iv), 12 }, 0x07 },
+                { "gmac128-update", (void *) m->gmac128_update, 4, { A(&gk), A(&ctx), A(buf), 32 }, 0x07 },
+                { "gmac128-finalize", (void *) m->gmac128_finalize, 4, { A(&gk), A(&ctx), A(tag), 16 }, 0x07 },
+                { "gcm192-pre", (void *) m->gcm192_pre, 2, { A(KEY[0]), A(&gk) }, 0x03 },
+                { "gcm128-precomp", (void *) m->gcm128_precomp, 1, { A(&gk) }, 0x01 },
+                { "ghash-pre", (void *) m->ghash_pre, 2, { A(KEY[0]), A(&gk) }, 0x03 },
+                { "aes-keyexp-192", (void *) m->keyexp_192, 3, { A(KEY[0]), A(out), A(buf) }, 0x07 },
+                { "cmac-subkey-gen-256", (void *) m->cmac_subkey_gen_256, 3, { A(buf), A(out), A(tag) }, 0x07 },
+                { "sm4-keyexp", (void *) m->sm4_keyexp, 3, { A(KEY[0]), A(kbuf), A(kbuf + 128) }, 0x07 },
+                { "sha224", (void *) m->sha224, 3, { A(buf), 32, A(out) }, 0x05 },
+                { "sha384", (void *) m->sha384, 3, { A(buf), 32, A(out) }, 0x05 },
+                { "sha256-one-block", (void *) m->sha256_one_block, 2, { A(buf), A(out) }, 0x03 },
+                { "sha512-one-block", (void *) m->sha512_one_block, 2, { A(kbuf), A(out) }, 0x03 },
+                { "zuc-eea3-4-buffer", (void *) m->eea3_4_buffer, 5, { A(P4K), A(P4I), A(P4S), A(P4D), A(L4) }, 0x1F, 0x0F },
+                { "zuc-eea3-n-buffer", (void *) m->eea3_n_buffer, 6, { A(P4K), A(P4I), A(P4S), A(P4D), A(L4), 4 }, 0x1F, 0x0F },
+                { "zuc-eia3-n-buffer", (void *) m->eia3_n_buffer, 6, { A(P4K), A(P4I), A(P4S), A(L4), A(P4T), 4 }, 0x1F, 0x17 },
+                { "snow3g-f8-1-buffer-bit", (void *) m->snow3g_f8_1_buffer_bit, 6, { A(&sk), A(iv), A(buf), A(out), 100, 3 }, 0x0F },
+                { "snow3g-f8-2-buffer", (void *) m->snow3g_f8_2_buffer, 9, { A(&sk), A(iv), A(iv), A(buf), A(out), 32, A(buf), A(kbuf), 32 }, 0xDF },
+                { "snow3g-f8-n-buffer", (void *) m->snow3g_f8_n_buffer, 6, { A(&sk), A(P4I), A(P4S), A(P4D), A(L4), 4 }, 0x1F, 0x0E },
+                { "snow3g-f8-n-buffer-multikey", (void *) m->snow3g_f8_n_buffer_multikey, 6, { A(P4SK), A(P4I), A(P4S), A(P4D), A(L4), 4 }, 0x1F, 0x0F },
+                { "snow3g-f8-8-buffer-multikey", (void *) m->snow3g_f8_8_buffer_multikey, 5, { A(P8SK), A(P8I), A(P8S), A(P8D), A(L8) }, 0x1F, 0x00 },
+                { "kasumi-f8-1-buffer-bit", (void *) m->f8_1_buffer_bit, 6, { A(&kk), ivv, A(buf), A(out), 100, 3 }, 0x0D },
+                { "kasumi-f8-2-buffer", (void *) m->f8_2_buffer, 9, { A(&kk), ivv, ivv, A(buf), A(out), 32, A(buf), A(kbuf), 32 }, 0xD9 },
+                { "kasumi-f8-n-buffer", (void *) m->f8_n_buffer, 6, { A(&kk), A(IV4), A(P4S), A(P4D), A(L4), 4 }, 0x1F, 0x0C },
+                { "kasumi-f9-1-buffer-user", (void *) m->f9_1_buffer_user, 6, { A(&kk), ivv, A(buf), 100, A(tag), 1 }, 0x15 },
+                { "kasumi-init-f9-key-sched", (void *) m->kasumi_init_f9_key_sched, 2, { A(KEY[0]), A(&kk) }, 0x03 },
+                { "aes256-cfb-one", (void *) m->aes256_cfb_one, 5, { A(out), A(buf), A(iv), A(kbuf), 16 }, 0x0F },
+                { "crc32-sctp", (void *) m->crc32_sctp, 2, { A(buf), 32 }, 0x01 },
+                { "crc24-lte-a", (void *) m->crc24_lte_a, 2, { A(buf), 32 }, 0x01 },
+                { "crc7-fp-header", (void *) m->crc7_fp_header, 2, { A(buf), 32 }, 0x01 },
+                { "chacha20-poly1305-enc-update", (void *) m->chacha20_poly1305_enc_update, 5, { A(KEY[0]), A(kbuf), A(out), A(buf), 32 }, 0x0F },
+                { "chacha20-poly1305-finalize", (void *) m->chacha20_poly1305_finalize, 3, { A(kbuf), A(tag), 16 }, 0x03 },
+                { "quic-aes-gcm", (void *) imb_quic_aes_gcm, 13, { A(m), A(&gk), 16, IMB_DIR_ENCRYPT, A(P4D), A(P4S), A(L4Q), A(P4I), A(P4S), 8, A(P4T), 16, 4 }, 0x5F2, 0x5B0 },
+                { "quic-hp-aes-ecb", (void *) imb_quic_hp_aes_ecb, 6, { A(m), A(kbuf), A(P4D), A(P4S), 4, 16 }, 0x0E, 0x0C },
+                { "quic-chacha20-poly1305", (void *) imb_quic_chacha20_poly1305, 11, { A(m), A(KEY[0]), IMB_DIR_ENCRYPT, A(P4D), A(P4S), A(L4Q), A(P4I), A(P4S), 8, A(P4T), 4 }, 0x2FA, 0x2D8 },
+                { "quic-hp-chacha20", (void *) imb_quic_hp_chacha20, 5, { A(m), A(KEY[0]), A(P4D), A(P4S), 4 }, 0x0E, 0x0C },
         };
         for (unsigned t = 0; t < sizeof T / sizeof T[0]; t++)
                 for (int a = 0; a < T[t].na; a++) {
                         if (!(T[t].ptrmask >> a & 1))
                                 continue;
-                        uint64_t args[12];
+                        uint64_t args[14];
                         memcpy(args, T[t].a, sizeof args);
                         args[a] = 0;
                         /* a valid call first so that the global error code is known to be 0 */
@@ -870,6 +928,20 @@ t_null_args(void)
                         GUARDED(T[t].n, tcalln(T[t].n, T[t].fn, T[t].na, args));
                         if (imb_get_errno(m) == 0)
                                 viol(T[t].n, "null-arg-no-error", "direct call with a NULL pointer argument returned without setting an error code (x = argument index)", a, 0);
+                        if (!(T[t].arrmask >> a & 1))
+                                continue;
+                        /* the array itself is fine but one of its elements is NULL */
+                        void *copy[8];
+                        memcpy(copy, (void *) (uintptr_t) T[t].a[a], sizeof copy);
+                        copy[2] = NULL;
+                        memcpy(args, T[t].a, sizeof args);
+                        args[a] = A(copy);
+                        imb_set_session(m, NULL);
+                        j = IMB_GET_NEXT_JOB(m);
+                        n_eval++;
+                        GUARDED(T[t].n, tcalln(T[t].n, T[t].fn, T[t].na, args));
+                        if (imb_get_errno(m) == 0)
+                                viol(T[t].n, "null-element-no-error", "direct call with a NULL element in a pointer array returned without setting an error code (x = argument index)", a, 0);
                 }
 }
 
